@@ -71,6 +71,11 @@ def pDAlt (s : String) : Option DAlt :=
     pure { domain := d, op := o, tag := t, np := np, idx := idx }
   | _ => none
 
+def pTol (s : String) : Option Tol :=
+  match s.splitOn "/" with
+  | [n, d] => do pure { num := ← n.toNat?, den := ← d.toNat? }
+  | _ => none
+
 /-- value pattern; the fuel bounds the nesting of BacktrackingOr alternatives -/
 def pVPat : Nat → Parser VPat
   | 0 => failure
@@ -80,8 +85,10 @@ def pVPat : Nat → Parser VPat
     | ["A"] => pure .any
     | ["V", id, name, isVar, canNone, check] =>
       pure (.var (← liftO id.toNat?) (optS name) (isTrue isVar) (isTrue canNone) (optB check))
-    | ["K", id, "s", c] => pure (.const (← liftO id.toNat?) (.scalar (← liftO c.toInt?)))
-    | ["K", id, "l", l] => pure (.const (← liftO id.toNat?) (.list (← liftO (pInts l))))
+    | ["K", id, "s", c, rt, atl] =>
+      pure (.const (← liftO id.toNat?) { val := .scalar (← liftO c.toInt?), relTol := ← liftO (pTol rt), absTol := ← liftO (pTol atl) })
+    | ["K", id, "l", l, rt, atl] =>
+      pure (.const (← liftO id.toNat?) { val := .list (← liftO (pInts l)), relTol := ← liftO (pTol rt), absTol := ← liftO (pTol atl) })
     | ["O", np, idx] => pure (.out (← liftO np.toNat?) (← liftO idx.toNat?))
     | ["D", id, name, tv, alts] =>
       let as ← liftO ((alts.splitOn "/").mapM pDAlt)
@@ -218,7 +225,26 @@ def showResult : Option Result → String
 def showSol (s : Sol) : String :=
   s!"{showBindings s.names} | {showNodes s.nodes} | {" ".intercalate (s.outputs.map showBound)}"
 
-def closeEq (a b : Int) : Bool := a == b
+/-- constant values travel as integers in units of 1e-6 -/
+def scale : Nat := 1000000
+
+/-- `math.isclose(a, b, rel_tol, abs_tol)` = `|a-b| <= max(rel_tol*max(|a|,|b|), abs_tol)`, exactly, on
+values `A/scale`, `B/scale` and tolerances given as fractions -/
+def closeQ (rel abs : Tol) (a b : Int) : Bool :=
+  let diff := (a - b).natAbs
+  let big := max a.natAbs b.natAbs
+  diff * rel.den * abs.den ≤ max (rel.num * big * abs.den) (abs.num * scale * rel.den)
+
+def showTol (t : Tol) : String := s!"{t.num}/{t.den}"
+
+def showConst (c : ConstPat) : String :=
+  (match c.val with
+   | .scalar v => s!"s{v}"
+   | .list l => "l" ++ showInts l) ++ s!"~{showTol c.relTol}~{showTol c.absTol}"
+
+/-- the Constant patterns of a pattern: per node, in input order (through BacktrackingOr alternatives) -/
+def showConsts (p : GPat) : String :=
+  ";".intercalate (p.nodes.map (fun n => ",".intercalate (n.consts.map showConst)))
 
 def handle (args : List String) : String :=
   match args with
@@ -233,7 +259,7 @@ def handle (args : List String) : String :=
         let g ← pGraph
         pure (p, g) : Parser (GPat × Graph)).run rest with
     | some root, some ((p, g), []) =>
-      let E : Env := { p := p, g := g, close := closeEq, fixF1 := fixF1 }
+      let E : Env := { p := p, g := g, close := closeQ, fixF1 := fixF1 }
       let rm := isTrue rm
       match mode with
       | "impl" =>
@@ -251,7 +277,7 @@ def handle (args : List String) : String :=
          | .error .notImplemented => "ERR:notimplemented"
          | .ok ps =>
            s!"K{ps.length}" ++ String.join (ps.map (fun q =>
-             " || " ++ showResult (patternMatch { E with p := q } root rm))))
+             " || " ++ showResult (patternMatch { E with p := q } root rm) ++ " #K " ++ showConsts q)))
       | _ => "bad-mode"
     | _, _ => "bad-parse"
   | _ => "bad-args"
